@@ -32,8 +32,8 @@ class ScriptEnd(BaseException):
 
 
 class Clock:
-    def __init__(self):
-        self.t = 1000.0
+    def __init__(self, t0=1000.0):
+        self.t = t0
 
     def time(self):
         return self.t
@@ -85,10 +85,11 @@ def peer_view(sc):
 class World:
     """Everything one connection attempt can observe or affect."""
 
-    def __init__(self, scenario):
+    def __init__(self, scenario, t0=1000.0):
         self.sc = scenario
         self.trace = []
-        self.clock = Clock()
+        self.t0 = t0            # wall-clock reading when this connection starts: the clock of an object's life goes on from connection to connection
+        self.clock = Clock(t0)
         self.env = list(scenario.env)
         self.write_ctr = 0
         self.key_ctr = 0
@@ -188,7 +189,7 @@ class FakeSelector:
         _, dt, outcome = step
         w.clock.t += float(dt) / w.sc.tdiv
         if dt:
-            w.log('T:%d' % int((w.clock.t - 1000.0) * w.sc.tdiv + 0.5))
+            w.log('T:%d' % int((w.clock.t - w.t0) * w.sc.tdiv + 0.5))
         if outcome is None:
             return False, max_bytes
         w.pending_recv = outcome
@@ -347,8 +348,12 @@ def exc_name(e):
         return 'struct.error'
     if isinstance(e, ValueError):
         return 'ValueError'
-    if isinstance(e, (TypeError, AttributeError)):
+    if isinstance(e, TypeError):
         return 'TypeError'
+    if isinstance(e, AttributeError) and ("attribute 'encode'" in str(e) or "attribute 'decode'" in str(e)):
+        return 'TypeError'      # an argument of the wrong type (no .encode / .decode): the TypeError class of outcomes
+    if isinstance(e, errors.WebSocketError):
+        return 'WebSocketError(%s)' % type(e).__name__      # some other subclass: still the documented way to report trouble
     return 'Other(%s)' % type(e).__name__
 
 
@@ -580,13 +585,15 @@ def run_chain(scs, worlds=None):
         sc0 = scs[0]
         ws = WebSocket(sc0.url, proxies={}, protocols=sc0.protocols or None, compress=sc0.compress)
         chain_cls = make_session_class(cur)       # ONE session class for all connections of the object
+        t_next = 1000.0
         for sc in scs:
-            world = World(sc)
+            world = World(sc, t_next)
             world.canon_write = _canon_write_factory(world)
             cur['sc'], cur['world'] = sc, world
             if worlds is not None:
                 worlds.append(world)
             out.append(_run_one(ws, sc, world, held, chain_cls))
+            t_next = world.clock.t + 3.0        # the next connection starts three seconds after the previous one ended
     finally:
         if held:
             del held[:]
